@@ -338,7 +338,8 @@ func HasVar(token Token) bool {
 // ParseVar returns the custom property name and the fallback value of
 // a var( <custom-property-name> [, <declaration-value>? ]? ) function,
 // or an empty name if [token] is not such a function.
-// The fallback is everything after the first comma, and may itself contain commas.
+// The fallback is everything after the first comma, and may itself contain commas;
+// it is nil if there is no comma, and empty (not nil) if nothing follows the comma.
 func ParseVar(token Token) (name string, fallback []Token) {
 	fn, ok := token.(pa.FunctionBlock)
 	if !ok || utils.AsciiLower(fn.Name) != "var" {
